@@ -53,4 +53,20 @@ Definition run_typed (inp : str * Z * bool) : sx :=
       checker_sx (checker_params addr);
       SS (ensure_port ep 5222); transport_sx (client_transport ep)].
 
-Definition run_C20 : sx -> sx := with_input dec_input run_typed.
+(* second input shape: (1 addr (outcome ...)) - the Connects of ONE transport object; an
+   outcome is () for a failed attempt or (peer) for the peer address reached.  Output: the
+   address dialled at each Connect, for the client's and for the component's transport. *)
+Definition dec_redial (x : sx) : option (str * list (option str)) :=
+  match x with
+  | SL [SZ 1; a; os] => do addr <- as_s a; do l <- as_list (as_opt as_s) os; Some (addr, l)
+  | _ => None
+  end.
+Definition run_redial (inp : str * list (option str)) : sx :=
+  let '(addr, outcomes) := inp in
+  SL [SL (map SS (client_dials addr outcomes)); SL (map SS (component_dials addr outcomes))].
+
+Definition run_C20 (x : sx) : sx :=
+  match dec_redial x with
+  | Some i => run_redial i
+  | None => with_input dec_input run_typed x
+  end.
